@@ -2,6 +2,7 @@ import LyModel.XPath.Doc
 import LyModel.XPath.Ast
 import LyModel.XPath.Str
 import LyModel.XPath.Num
+import LyModel.XPath.Comp
 /-!
 # Denotational evaluator for XPath 1.0 on the YANG data model  (component `XpCore`, property C08)
 
@@ -180,49 +181,19 @@ def Value.toBool : Value N → Bool
   | .num n => !(XNum.isZero n || XNum.isNaN n)
   | .bool b => b
 
-def cmpNum (op : BinOp) (a b : N) : Bool :=
-  match op with
-  | .eq => XNum.eq a b | .ne => XNum.ne a b
-  | .lt => XNum.lt a b | .le => XNum.le a b | .gt => XNum.gt a b | .ge => XNum.ge a b
-  | _ => false
+/-- operand of a comparison, abstracted from the tree: node-sets become the list of their string-values -/
+def Value.toOpnd (env : Env) : Value N → Comp.Opnd N
+  | .ns l => .ns (l.map env.strValue)
+  | .str s => .str s
+  | .num n => .num n
+  | .bool b => .bool b
 
-/-- REC §3.4, neither operand a node-set -/
-def cmpAtom (env : Env) (op : BinOp) (a b : Value N) : Bool :=
-  if op == .eq || op == .ne then
-    match a, b with
-    | .bool x, _ => if op == .eq then x == b.toBool else x != b.toBool
-    | _, .bool y => if op == .eq then a.toBool == y else a.toBool != y
-    | .num x, _ => cmpNum op x (b.toNum env)
-    | _, .num y => cmpNum op (a.toNum env) y
-    | _, _ => if op == .eq then a.toStr env == b.toStr env else a.toStr env != b.toStr env
-  else cmpNum op (a.toNum env) (b.toNum env)
-
-/-- what libyang's `moveto_op_comp` computes for node-set × boolean (F56): the comparison is made per node, so it is false
-for the empty node-set; for `< <= > >=` the first comparison converts the boolean operand to a number *in place*, and every
-later node is then compared as a number (its string-value converted) instead of as the boolean `true`.
-`sw` = the boolean is the left operand. -/
-def nsBoolC (env : Env) (op : BinOp) (l : List Ref) (y : Bool) (sw : Bool) : Bool :=
-  let cmp : Value N → Value N → Bool := fun a b => if sw then cmpAtom env op b a else cmpAtom env op a b
-  if op == .eq || op == .ne then l.any fun _ => cmp (.bool true) (.bool y)
-  else match l with
-    | [] => false
-    | _ :: rest =>
-      cmp (.bool true) (.bool y) ||
-        rest.any fun z => cmp (.num ((Value.str (env.strValue z) : Value N).toNum env)) (.num (XNum.ofBool y : N))
-
-/-- REC §3.4 -/
+/-- `= != < <= > >=`: REC §3.4 (`Comp.Spec.compare`); with switch F56 on, libyang's `moveto_op_comp` (`Comp.C.opComp`), which
+`Props.C08.compare_table_partial` shows to be the same function except on node-set × boolean. -/
 def compare (env : Env) (op : BinOp) (a b : Value N) : Bool :=
-  match a, b with
-  | .ns l1, .ns l2 => l1.any fun x => l2.any fun y => cmpAtom env op (.str (env.strValue x) : Value N) (.str (env.strValue y))
-  | .ns l, .bool y =>
-    if env.q.nsBool then nsBoolC (N := N) env op l y false
-    else cmpAtom env op (.bool (!l.isEmpty) : Value N) (.bool y)
-  | .bool x, .ns l =>
-    if env.q.nsBool then nsBoolC (N := N) env op l x true
-    else cmpAtom env op (.bool x : Value N) (.bool (!l.isEmpty))
-  | .ns l, v => l.any fun x => cmpAtom env op (.str (env.strValue x)) v
-  | v, .ns l => l.any fun y => cmpAtom env op v (.str (env.strValue y))
-  | a, b => cmpAtom env op a b
+  let c : Comp.Cfg := { numFmt := env.q.numFmt, strtold := env.q.strtold }
+  if env.q.nsBool then Comp.C.opComp c op (a.toOpnd env) (b.toOpnd env)
+  else Comp.Spec.compare c op (a.toOpnd env) (b.toOpnd env)
 
 def arith (op : BinOp) (a b : N) : N :=
   match op with
